@@ -196,6 +196,78 @@ func registerIntrinsics(e *Engine) {
 		}
 		return FalseT
 	}
+	// vWatchCaptured(f): from now on, every write to memory reachable from the
+	// variables captured by closure f (not through frames or the interpreter)
+	// is recorded as a "capwrite:" event. vWatchEnd() stops watching.
+	I["vWatchCaptured"] = func(st *State, a []Value) Value {
+		arg := a[0]
+		if iv, ok := arg.(*IfaceV); ok {
+			arg = iv.V
+		}
+		fv, ok := arg.(*FuncV)
+		if !ok {
+			st.unsupported("vWatchCaptured on %T", arg)
+		}
+		st.watch = map[*Object]bool{}
+		var visit func(v Value, depth int)
+		visit = func(v Value, depth int) {
+			if depth > 12 {
+				return
+			}
+			switch x := v.(type) {
+			case *PtrV:
+				if x.Obj == nil || st.watch[x.Obj] {
+					return
+				}
+				if n, ok := x.Obj.Typ.(*types.Named); ok {
+					nm := n.Obj().Name()
+					if nm == "frame" || nm == "Interpreter" || nm == "itype" || nm == "scope" {
+						return // per-activation or compile-time structures reached through the AST are not closure state
+					}
+				}
+				st.watch[x.Obj] = true
+				visit(st.get(x.Obj), depth+1)
+			case *SliceV:
+				if x.Obj == nil || st.watch[x.Obj] {
+					return
+				}
+				st.watch[x.Obj] = true
+				visit(st.get(x.Obj), depth+1)
+			case *MapV:
+				if x.Obj == nil || st.watch[x.Obj] {
+					return
+				}
+				st.watch[x.Obj] = true
+			case *StructV:
+				for _, f := range x.F {
+					visit(f, depth+1)
+				}
+			case *ArrayV:
+				for _, f := range x.E {
+					visit(f, depth+1)
+				}
+			case *IfaceV:
+				visit(x.V, depth+1)
+			case *RVal:
+				if x.Ref != nil {
+					visit(x.Ref, depth+1)
+				}
+				visit(x.Val, depth+1)
+			case *FuncV:
+				for _, e := range x.Env {
+					visit(e, depth+1)
+				}
+			}
+		}
+		for _, e := range fv.Env {
+			visit(e, 0)
+		}
+		return nil
+	}
+	I["vWatchEnd"] = func(st *State, a []Value) Value {
+		st.watch = nil
+		return nil
+	}
 	I["vSymbolic"] = func(st *State, a []Value) Value { return TrueT }
 	I["vConcretizeInt"] = func(st *State, a []Value) Value {
 		// fork so that the value becomes a constant in [lo,hi]
